@@ -1,12 +1,44 @@
 from props import reg
 
-FK_FILES = ["Base/Prelude.v", "Model/Block.v", "Model/ForkDB.v", "Model/Forkable.v", "Model/ForkableLookups.v", "Check/Fk_Check.v"]
+FK_MODEL = ["Base/Prelude.v", "Model/Block.v", "Model/ForkDB.v", "Model/Forkable.v", "Model/ForkableLookups.v",
+            "Spec/Consumer.v", "Spec/Universe.v", "Spec/ForkChoice.v", "Check/Fk_Check.v", "Check/Fk_Props_Check.v"]
 
-for pid in ["C01", "C18"]:
+FK_RULE = ("generated block forests of 3-25 (thorough: up to 48) blocks hanging under the LIB (chains, forks at any height, several "
+           "competing tips, skipped numbers, orphans, roots with empty parent id), LIB declarations = ancestor heights with per-branch lag, "
+           "jumps and 8% 'wild' declarations (outside lib_ok: correspondence only); arrival orders: in order, local swaps, by height, "
+           "parent-after-child, full shuffle, 60% with duplicates, LIB block itself fed; modes exclusive/inclusive LIB, hold-until-LIB "
+           "discovery, no-LIB pass-through (correspondence only); kept 0-5; all-blocks-trigger 30%; step filters; first streamable 0-2; "
+           "handler failing at a random call 18%; self-parent blocks 3%. non-trivial = at least one event delivered; distinct by input")
+
+FK_TB = ["forkable.Forkable / ForkDB modelled by hand in Model/ForkDB.v, Model/Forkable.v (lastLongestChain cache, EnsureBlockFlows, "
+         "unlinkable-block counters, logging not modelled); every run compares model and implementation event by event "
+         "(step, block, cursor block/head/LIB, junction, StepIndex/StepCount, result, HeadInfo)",
+         "Go map iteration order is abstracted (sorted on both sides)"]
+
+TEXT = {
+ "C01": "Undo/New discipline, re-feed and handler-error clauses. The boolean monitor of the property (Spec/Consumer.v: c01_discipline_b, "
+        "c01_refeed_b, c01_error_b) is evaluated in Coq on every implementation trace; the Gallina model of ProcessBlock is compared "
+        "with the implementation on the same histories; theorems about the model in Properties/C01.v.",
+ "C02": "Finality chain / oldest-pending / never-revoked / stalled clauses as the monitor c02_b (Spec/Consumer.v) on implementation traces "
+        "of lib_ok histories, plus model correspondence.",
+ "C03": "The reference fork choice Spec/ForkChoice.v (received set, LIB, tip) is run alongside every implementation trace: consumer tip, "
+        "HeadInfo and last final block must equal the reference after every block; plus model correspondence.",
+ "C04": "Cursor fields of every event (block, head = incoming block, LIB = last announced final block, LIB monotone and <= block height, "
+        "junction = block the stack rests on after the undo batch) as the monitor c04_b on implementation traces; plus model correspondence.",
+ "C18": "Buffer bound after LIB moves, retention by hash and by number, canonical lookup on the consumer chain, head info, lowest "
+        "servable number, no lookup crash: monitor c18_follow on the implementation's lookup results after every block; the lookup API "
+        "is modelled (Model/ForkableLookups.v) and compared as well.",
+}
+
+for pid, v, sc in [("C01", "c01_verdicts", "c01_in_scope"), ("C02", "c02_verdicts", "c02_in_scope"),
+                   ("C03", "c03_verdicts", "c03_in_scope"), ("C04", "c04_verdicts", "c04_in_scope"),
+                   ("C18", "c18_verdicts", "c18_in_scope")]:
     reg(pid,
-        check_imports=["Model.Block", "Model.ForkDB", "Model.Forkable", "Check.Fk_Check"],
-        case_type="fk_case", verdicts="fk_corr_verdicts",
+        check_imports=["Model.Block", "Model.ForkDB", "Model.Forkable", "Check.Fk_Check", "Check.Fk_Props_Check"],
+        case_type="fk_case", verdicts=v, scope=sc,
         property_modules=[], theorems=[],
-        proof_files=FK_FILES,
-        n_quick=300, n_thorough=20000, n_escalate=3000,
-        rule="TEMP", level_text="TEMP")
+        proof_files=list(FK_MODEL),
+        n_quick=500 if pid != "C18" else 250, n_thorough=30000 if pid != "C18" else 8000, n_escalate=4000,
+        rule=FK_RULE, level_text=TEXT[pid], trusted_base=FK_TB,
+        assumptions=["well-formed universe (wf_b): ids non-empty and unique, heights strictly increase from parent to child",
+                     "C02-C04, C18: LIB declarations in the class lib_ok (Spec/Universe.v); other histories are compared with the model only"])
